@@ -21,7 +21,8 @@ vars == <<inp, phase>>
 (* utility ladders as they appear in the REQUEST (real temperatures, dt_cont 0): *)
 (*   ty in {"Hot","Cold","Both"}; ts = tt means isothermal (the code adds the    *)
 (*   phase-change glide itself)                                                  *)
-RUt(nm, ty, ts, tt) == [name |-> nm, type |-> ty, ts |-> ts, tt |-> tt, active |-> TRUE]
+RUt(nm, ty, ts, tt) == [name |-> nm, type |-> ty, ts |-> ts, tt |-> tt, active |-> TRUE, dtc |-> 0]
+RUtd(nm, ty, ts, tt, d) == [RUt(nm, ty, ts, tt) EXCEPT !.dtc = d]      \* a utility with its own contribution
 Ladder(o) ==
   CASE o = 0 -> <<>>                                                       \* defaults only
     [] o = 1 -> << RUt("LPS", "Both", TMin + 150, TMin + 150) >>            \* generation and use at one level
@@ -39,6 +40,8 @@ Ladder(o) ==
     [] o = 8 -> << RUt("HPS", "Hot", TMin + 250, TMin + 250),               \* two hot utilities with one and the same supply temperature
                    RUt("OIL", "Hot", TMin + 250, TMin + 150),               \*   (seed C09d)
                    RUt("CW", "Cold", TMin - 100, TMin - 50) >>
+    [] o = 10 -> << RUt("LPS", "Both", TMin + 150, TMin + 150),             \* a header used and fed at one level, with a SECOND generator
+                    RUtd("GEN2", "Cold", TMin + 150, TMin + 150, 50) >>     \*   exporting into it (larger contribution: both carry duty) -- seed C02a
     [] o = 9 -> << RUt("HWL", "Hot", TMin + 150, TMin + 50) >>              \* a hot-water loop gliding through the process range below the
                                                                            \*   (default) top level: slope-limited against a convex GCC (seed C12e)
     [] o = 5 -> << RUt("USE", "Hot", TMin + 30, TMin + 20),                 \* for the fine lattice {120,130,140}: use at 150->140,
